@@ -49,7 +49,23 @@ def trees(case):
         r, p = h5.parse(text, builder=b, namespace=ns, scripting=scripting, container=container,
                         full_tree=(None if (b == "etree" and not ft and not ns) else ft))
         res[(b, ns, ft)] = obs.flat(r)
+        if b == "etree":
+            # the elements of a tree are separate objects: no two of them hold the same attribute mapping (an edit of one element
+            # through the ElementTree API must not show on another - clones made by the adoption agency algorithm and by
+            # 'reconstruct the active formatting elements' are where that could happen)
+            seen = {}
+            for el in r.iter():
+                a = getattr(el, "attrib", None)
+                if a is None:
+                    continue
+                if id(a) in seen and seen[id(a)] is not el:
+                    raise AliasedAttributes("two elements of the etree result (%r and %r) share one attribute mapping" % (seen[id(a)].tag, el.tag))
+                seen[id(a)] = el
     return res
+
+
+class AliasedAttributes(Exception):
+    pass
 
 
 def _trace(case):
